@@ -1,0 +1,18 @@
+import math
+
+
+def exp(x):
+    """math.exp that saturates at +inf instead of raising OverflowError on finite arguments"""
+    try:
+        return math.exp(x)
+    except OverflowError:
+        return float('inf')
+
+
+def power(a, b):
+    """math.pow that saturates at +-inf instead of raising OverflowError on finite arguments"""
+    try:
+        return math.pow(a, b)
+    except OverflowError:
+        negative = a < 0 and float(b).is_integer() and int(b) % 2 == 1
+        return -float('inf') if negative else float('inf')
